@@ -21,6 +21,15 @@ import (
 
 var c01Alphabet = []string{"(", ")", "[", "]", "{", "}", "'", "\"", "`", "^", "~", "~@", "%", ":", ":=", "=", ".", ",", ";", "#", "?", "&", "$", "\\", "->", "<-", "-", "+", "*", "/", "**", "<", "!", "1", "-1", "2.5", "1e3", "0x1F", "12ULL", "a", "a:", "a.b", "#a", "'c'", "\"s\"", "and", "or", "cond", "let", "def", "fn", "defn", "for", "break", "continue", "quote", "set", "begin", "defmac", "macexpand", "syntaxQuote", "include", "package", "return", "newScope", "letseq", "mdef", "assert", "hash", "list", "nil", "if", "else", "not", "range", "struct", "func", "method", "interface", "var", "infix", "comma", "//", "/*", "*/", "\n", "++", "+=", "==", "Inf", "NaN", "unquote", "unquote-splicing", "&&", "_ls", "raw64", "field", "label:", "true"}
 
+// opener, innermost, closer of the deep-nesting workload ((str (str … doubles its output per level: honest exponential work, not included)
+var c01Deep = [][3]string{
+	{"(", "1", ")"}, {"[", "1", "]"}, {"{", "1", "}"}, {"%", "a", ""}, {"^(", "a", ")"}, {"~", "a", ""}, {"(quote ", "a", ")"},
+	{"(begin ", "1", ")"}, {"(+ 1 ", "1", ")"}, {"(list ", "1", ")"}, {"[1 ", "2", "]"}, {"(hash a: ", "1", ")"}, {"{a: ", "1", "}"},
+	{"((fn [] ", "1", "))"}, {"(let [a ", "1", "] a)"}, {"(cond true ", "1", " 0)"}, {"(and 1 ", "1", ")"}, {"{ 1 + ", "1", "}"},
+	{"{ a = ", "1", "}"}, {"(newScope ", "1", ")"}, {"- ", "1", ""}, {"not ", "true", ""}, {"/* ", "x", " */"}, {"(defn f [] ", "1", ")"},
+	{"(macexpand ", "1", ")"}, {"(type? ", "1", ")"}, {"a.", "b", ""}, {"a[", "1", "]"}, {"(for [1 1 1] ", "(break)", ")"}, {"\"", "x", "\""},
+}
+
 var c01Infix = []string{"1", "a", "a:", "top:", ";", ",", "=", ":=", "+", "-", "*", "**", "<", "==", "and", "not", "if", "else", "for", "range", "break", "continue", "{", "}", "[", "]", "(", ")", ".", "a.b", "a[1]", "\"s\"", "++", "+=", "(f a)", "\n"}
 
 // names that legitimately end, block or leave the process when called
@@ -74,12 +83,12 @@ func c01Setup(c *core.Ctx) {
 	})
 }
 
-type c01plan struct{ tok1, tok2, tok3, infix, shapes, names, mut, chaos, cyc, seq, repl int }
+type c01plan struct{ tok1, tok2, tok3, infix, deep, shapes, names, mut, chaos, cyc, seq, repl int }
 
 func c01Plan(c *core.Ctx) c01plan {
 	c01Setup(c)
 	k := len(c01Alphabet)
-	p := c01plan{tok1: 1, tok2: k, infix: len(c01Infix), shapes: len(c01special), names: len(c01names), mut: thorN(c, 600, 12000), chaos: thorN(c, 800, 15000), cyc: 12, seq: thorN(c, 20, 200), repl: thorN(c, 12, 120)}
+	p := c01plan{tok1: 1, tok2: k, infix: len(c01Infix), deep: len(c01Deep), shapes: len(c01special), names: len(c01names), mut: thorN(c, 600, 12000), chaos: thorN(c, 800, 15000), cyc: 12, seq: thorN(c, 20, 200), repl: thorN(c, 12, 120)}
 	if c.Thor {
 		p.tok3 = k * k
 	}
@@ -90,21 +99,22 @@ func init() {
 	core.Register(&core.Prop{
 		ID:    "C01",
 		Level: "exploration",
-		Rule: "inputs: (1) every string of 1 and 2 (quick) / 1..3 (thorough) tokens over a 103-token alphabet, and every infix block { … } with a body of 2 (a fifth of them 3; thorough all 3) tokens over a 36-token infix alphabet with 0-2 line/block comments after the brace (every bracket, quote, sigil and operator character, one literal of each numeric notation, string/char/raw-string openers, comment openers, every special-form name), with and without blanks between tokens; (2) every special form of the compiler and every name bound after StandardSetup (except the ones that end, block or leave the process by design) with 0..4 arguments over 29 argument kinds; (3) byte- and token-level mutations (delete, duplicate, swap, truncate, splice) of the tests/*.zy corpus; (4) generated programs in chaos mode (ill-typed calls, wrong arities, out-of-range indices, tokens replaced by brackets/sigils); (5) self-referential arrays/hashes printed, compared, encoded and converted; (6) sequences of hostile inputs against one long-lived interpreter; (7) lines fed to the real REPL (cmd/zygo -no-liner) and texts given to cmd/zygo -c. " +
+		Rule: "inputs: (1) every string of 1 and 2 (quick) / 1..3 (thorough) tokens over a 103-token alphabet, and every infix block { … } with a body of 2 (a fifth of them 3; thorough all 3) tokens over a 36-token infix alphabet with 0-2 line/block comments after the brace, and 30 constructs nested 200 / 2000 (thorough 20000) levels deep, balanced, left open and over-closed (every bracket, quote, sigil and operator character, one literal of each numeric notation, string/char/raw-string openers, comment openers, every special-form name), with and without blanks between tokens; (2) every special form of the compiler and every name bound after StandardSetup (except the ones that end, block or leave the process by design) with 0..4 arguments over 29 argument kinds; (3) byte- and token-level mutations (delete, duplicate, swap, truncate, splice) of the tests/*.zy corpus; (4) generated programs in chaos mode (ill-typed calls, wrong arities, out-of-range indices, tokens replaced by brackets/sigils); (5) self-referential arrays/hashes printed, compared, encoded and converted; (6) sequences of hostile inputs against one long-lived interpreter; (7) lines fed to the real REPL (cmd/zygo -no-liner) and texts given to cmd/zygo -c. " +
 			"Entry points: EvalString, LoadString+Run, Parser.ParseTokens whole and in two pieces, EvalExpressions on the parsed forms, macro definition+expansion. Monitor: a recover() boundary around every call (anything reaching it escaped the library), child-process death attributed through the journal (fatal errors, exit), (nil,nil) results, results whose printing fails, and the VM step budget; a watchdog hit outside the VM loop that reproduces alone is a hang. non-trivial = every distinct input",
 		Assumptions: []string{
 			"names that end, block or leave the process by design (exit, stop, sys, system, sleep, channel operations, file writers, timeit, go) are not called; resource exhaustion by honestly expensive programs is classified inconclusive by the step budget",
 		},
 		NCases: func(c *core.Ctx) int {
 			p := c01Plan(c)
-			return p.tok1 + p.tok2 + p.tok3 + p.infix + p.shapes + p.names + p.mut + p.chaos + p.cyc + p.seq + p.repl
+			return p.tok1 + p.tok2 + p.tok3 + p.infix + p.deep + p.shapes + p.names + p.mut + p.chaos + p.cyc + p.seq + p.repl
 		},
 		Chunk:           8,
 		CaseTimeoutS:    40,
 		StallS:          8,
 		HangIsViolation: true,
+		Sanitize:        true,
 		NeedsZygoBin:    true,
-		MustSee:         []string{"eval_calls", "parse_calls", "evalexpr_calls", "loadrun_calls", "repl_lines", "cli_runs", "token_strings", "form_shapes", "mutations"},
+		MustSee:         []string{"eval_calls", "parse_calls", "evalexpr_calls", "loadrun_calls", "repl_lines", "cli_runs", "token_strings", "form_shapes", "mutations", "deep_nests"},
 		Run:             c01Run,
 		Describe: func(c *core.Ctx, i int) string {
 			return "case " + fmt.Sprint(i) + ": " + c01Describe(c, i)
@@ -124,7 +134,7 @@ func c01Kind(c *core.Ctx, i int) (string, int) {
 	for _, k := range []struct {
 		name string
 		n    int
-	}{{"tok1", p.tok1}, {"tok2", p.tok2}, {"tok3", p.tok3}, {"infix", p.infix}, {"shapes", p.shapes}, {"names", p.names}, {"mut", p.mut}, {"chaos", p.chaos}, {"cyc", p.cyc}, {"seq", p.seq}, {"repl", p.repl}} {
+	}{{"tok1", p.tok1}, {"tok2", p.tok2}, {"tok3", p.tok3}, {"infix", p.infix}, {"deep", p.deep}, {"shapes", p.shapes}, {"names", p.names}, {"mut", p.mut}, {"chaos", p.chaos}, {"cyc", p.cyc}, {"seq", p.seq}, {"repl", p.repl}} {
 		if i < k.n {
 			return k.name, i
 		}
@@ -267,6 +277,27 @@ func c01Run(c *core.Ctx, i int) *core.Result {
 			}
 		}
 		res.Input = fmt.Sprintf("infix blocks starting with %q", a)
+	case "deep":
+		// one construct nested 200 / 2000 (thorough: 20000) levels deep: balanced, left open, over-closed
+		d := c01Deep[k]
+		depths := []int{200, 2000}
+		if c.Thor {
+			depths = append(depths, 20000)
+		}
+		if strings.Contains(d[0], "a: ") {
+			// printing a nest of hashes is honestly quadratic in its depth (20 s at 2000)
+			depths = []int{200, 600}
+			if c.Thor {
+				depths = append(depths, 2000)
+			}
+		}
+		for _, n := range depths {
+			r.input(strings.Repeat(d[0], n) + d[1] + strings.Repeat(d[2], n) + "\n")
+			r.input(strings.Repeat(d[0], n) + d[1] + "\n")
+			r.input(strings.Repeat(d[0], n/2) + d[1] + strings.Repeat(d[2], n) + "\n")
+			res.Ev("deep_nests", 3)
+		}
+		res.Input = fmt.Sprintf("%q nested up to %d deep", d[0], depths[len(depths)-1])
 	case "shapes", "names":
 		name := ""
 		if kind == "shapes" {
